@@ -675,3 +675,67 @@ def rule_expansion_untouched(prog, rep, rid='B9'):
                     rep.violation(rid, f, x.get('_line'), 'expansion-order',
                                   '%s: %s - blanks that belong to a substituted value (an environment variable, another key) are lost or '
                                   'blanks written in the file survive' % (f.name, why))
+
+
+def rule_every_word_stored(prog, rep, rid='B10'):
+    """Apache-style tokenizer: the loop that delimits the words of a line stores every word it delimits - each iteration passes
+    the store `argv[argc] = word` and the count increment; no path from the loop head back to it (or out of it) skips the store
+    depending on what the word contains (an explicitly empty quoted argument "" is an argument)."""
+    from .hashrules import _loop_nodes
+    rep.rule(rid, 'every iteration of the word-splitting loop of the Apache-style parser stores the word it delimited and counts it '
+                  '(no path round the loop bypasses the store)')
+    unit = 'src/extensions/qaconf.c'
+    prog.unit(unit)
+    for f in sorted(prog.funcs_in(unit), key=lambda x: x.line or 0):
+        if f.body is None:
+            continue
+        cfg = f.cfg
+
+        def is_store(m):
+            if not isinstance(m.ast, dict) or m.kind == 'macro':
+                return False
+            for y in walk(m.ast):
+                if y.get('kind') == 'BinaryOperator' and y.get('opcode') == '=':
+                    l = strip(children(y)[0])
+                    if l.get('kind') == 'ArraySubscriptExpr' and canon(children(l)[0]).endswith('->argv') and \
+                            canon(children(l)[1]).endswith('->argc'):
+                        return True
+            return False
+        stores = [n for n in cfg.nodes if n.id in cfg.reachable and is_store(n)]
+        if not stores:
+            continue
+        loops = [(h, _loop_nodes(cfg, h), st) for (h, st) in cfg.loops if h.id in cfg.reachable]
+        for sn in stores:
+            inl = [(h, b, st) for (h, b, st) in loops if sn.id in b]
+            if not inl:
+                continue
+            # the innermost loop statement that contains the store
+            from .looprules import _natural_body
+            cand = []
+            for (h, b, st) in inl:
+                nb = _natural_body(cfg, h, st)
+                if sn.id in nb:
+                    cand.append((len(nb), h, nb))
+            if not cand:
+                continue
+            _n, head, body = min(cand, key=lambda c: c[0])
+            rep.instance(rid)
+            # a cycle head -> head inside the loop that avoids every store node (error exits leave the loop and are not cycles)
+            seen, work, bad = set(), [(s, [head]) for (s, _l) in head.succs], None
+            while work and bad is None:
+                m, path = work.pop()
+                if m is head:
+                    bad = path
+                    break
+                if m.id in seen or m.id not in body or is_store(m):
+                    continue
+                seen.add(m.id)
+                for (s, _l) in m.succs:
+                    work.append((s, path + [m]))
+            rep.oblige(rid, bad is None, {'function': f.name, 'store_line': sn.line})
+            if bad is not None:
+                rep.violation(rid, f, sn.line, 'word-skipped',
+                              '%s: the word-splitting loop (line %s) can go round without storing the word it delimited (the store at line %s is '
+                              'bypassed): arguments such as an explicitly empty "" are dropped and the argument count is short'
+                              % (f.name, head.line, sn.line),
+                              path=['%s:%s' % (f.relfile, p.line) for p in bad if p.kind in ('cond', 'act')][:15])
